@@ -1071,6 +1071,11 @@ func (p *Policy) DecryptWithFactory(derivationContext, nonce []byte, value strin
 			return "", err
 		}
 
+		// The legacy counter KDF always yields 32 bytes; take the prefix that
+		// the encryption path uses (it slices the derived key the same way).
+		if len(encKey) > numBytes {
+			encKey = encKey[:numBytes]
+		}
 		if len(encKey) != numBytes {
 			return "", errutil.InternalError{Err: "could not derive enc key, length not correct"}
 		}
